@@ -91,6 +91,8 @@ pub fn single_file_layout(n: usize) -> Layout {
         xor_key: None,
         magic_mode: 0,
         xor_symlink: false,
+        link_chain: false,
+        side_xor: None,
         extra_files: vec![],
     }
 }
@@ -131,6 +133,8 @@ pub fn random_layout(n: usize, max_files: usize, junk: bool, rng: &mut Rng) -> L
         xor_key: None,
         magic_mode: 0,
         xor_symlink: false,
+        link_chain: false,
+        side_xor: None,
         extra_files: vec![],
     }
 }
